@@ -14,8 +14,30 @@
     [prop_ok]: what was observed equals the specification (Base/DecSpec.v)
     evaluated on the text, and equals the standard library's answer.
     [corr_ok]: the code-structured model (Model/Atof.v, Model/Atoi.v) gives the
-    same observations. *)
-From Perf Require Import Base.Bytes Base.Sx Base.B64 Base.SxF Base.DecSpec Model.Atoi Model.Atof.
+    same observations, and so does the model whose slow fall-back is the
+    transcription of decimal.go / floatBits (Model/Decimal.v, [parse_float_code]):
+    on every text that reaches the slow path the transcribed conversion's bits and
+    error are compared with the implementation's (here) and, through [prop_ok] on
+    the same observation, with the specification's.
+
+      tables:      (2 ((delta cutoff) ...) (powtab ...) (ndigits mantbits expbits bias))
+                   leftcheats and powtab as written in /repo's decimal.go / atof.go,
+                   the buffer size and float64info (read from the source text by the
+                   generator): [corr_ok] = they are the model's tables, [prop_ok] =
+                   cutoff k = the digits of 5^k and delta k = the number of digits of
+                   2^k, which is what Proofs/DecimalShift.v needs of them.
+
+      decimal ops: (3 op dec k res) (4 dec n) (5 u dec) (6 dec bits ovf) (7 text ok dec)
+                   only produced when the harness is built with the tag verifdecimal
+                   against a tree that has the bridge extension of hooks/ installed:
+                   one operation of decimal.go (0 leftShift 1 rightShift 2 Shift 3 Round
+                   4 RoundDown 5 RoundUp; RoundedInteger; Assign; floatBits; set) on a
+                   generated decimal dec = (digits dp neg trunc). [corr_ok] = the
+                   transcription computes the same decimal / number; [prop_ok] = the
+                   observed result meets the specification of the operation (exact
+                   scaling up to the digits beyond the 800th with the trunc rule,
+                   round-half-even with sticky, digits of u, rn_b64). *)
+From Perf Require Import Base.Bytes Base.Sx Base.B64 Base.SxF Base.DecSpec Model.Atoi Model.Atof Model.Decimal.
 Local Open Scope Z_scope.
 
 Definition as_err (s : sx) : option num_err :=
@@ -48,7 +70,25 @@ Definition as_icall (s : sx) : option icall :=
 
 Inductive case :=
 | CFloat (text : bytes) (pf : b64 * num_err) (std : b64 * num_err) (rd : robs b64)
-| CInt (text : bytes) (at_ : Z * num_err) (std : Z * num_err) (rd : robs Z) (calls : list icall).
+| CInt (text : bytes) (at_ : Z * num_err) (std : Z * num_err) (rd : robs Z) (calls : list icall)
+| CTables (cheats : list (Z * bytes)) (pt : list Z) (consts : list Z)
+| CDecOp (op : Z) (a : decimal) (k : Z) (res : option decimal)
+| CDecRI (a : decimal) (n : Z)
+| CDecAssign (u : Z) (res : decimal)
+| CDecBits (a : decimal) (res : option (Z * bool))
+| CDecSet (text : bytes) (ok : bool) (res : decimal).
+
+Definition as_bool (s : sx) : option bool :=
+  match s with SZ 0 => Some false | SZ 1 => Some true | _ => None end.
+
+Definition as_decimal (s : sx) : option decimal :=
+  match s with
+  | SL [SB ds; SZ dp; ng; tr] => do ng <- as_bool ng; do tr <- as_bool tr; Some (mkDecimal (digs ds) dp ng tr)
+  | _ => None
+  end.
+
+Definition as_cheat (s : sx) : option (Z * bytes) :=
+  match s with SL [SZ d; SB c] => Some (d, c) | _ => None end.
 
 Definition decode (s : sx) : option case :=
   match s with
@@ -63,6 +103,18 @@ Definition decode (s : sx) : option case :=
       do rd <- as_robs as_z rd;
       do calls <- as_list as_icall calls;
       Some (CInt t a st rd calls)
+  | SL [SZ 2; ch; pt; cs] =>
+      do ch <- as_list as_cheat ch;
+      do pt <- as_list as_z pt;
+      do cs <- as_list as_z cs;
+      Some (CTables ch pt cs)
+  | SL [SZ 3; SZ op; a; SZ k; SL []] => do a <- as_decimal a; Some (CDecOp op a k None)
+  | SL [SZ 3; SZ op; a; SZ k; r] => do a <- as_decimal a; do r <- as_decimal r; Some (CDecOp op a k (Some r))
+  | SL [SZ 4; a; SZ n] => do a <- as_decimal a; Some (CDecRI a n)
+  | SL [SZ 5; SZ u; r] => do r <- as_decimal r; Some (CDecAssign u r)
+  | SL [SZ 6; a] => do a <- as_decimal a; Some (CDecBits a None)
+  | SL [SZ 6; a; SZ b; o] => do a <- as_decimal a; do o <- as_bool o; Some (CDecBits a (Some (b, o)))
+  | SL [SZ 7; SB t; ok; r] => do ok <- as_bool ok; do r <- as_decimal r; Some (CDecSet t ok r)
   | _ => None
   end.
 
@@ -120,6 +172,69 @@ Definition int_sig_digits (t : bytes) : nat :=
     more than 800 significant integer digits *)
 Definition std_reliable (t : bytes) : bool := Nat.leb (int_sig_digits t) 800.
 
+(** what the shift proofs need of the cheat sheet: entry k holds the number of
+    decimal digits of 2^k and the decimal digits of 5^k (entry 0: 0 and "") *)
+Fixpoint cheats_ok (k : Z) (ch : list (Z * bytes)) : bool :=
+  match ch with
+  | [] => true
+  | (d, c) :: r =>
+      (if k =? 0 then (d =? 0) && Nat.eqb (length c) 0
+       else beq c (dec_of_Z (5 ^ k)) && (d =? Z.of_nat (length (dec_of_Z (2 ^ k)))))
+      && cheats_ok (k + 1) r
+  end.
+
+Fixpoint cheats_eqb (a : list (Z * bytes)) (b : list (Z * list Z)) : bool :=
+  match a, b with
+  | [], [] => true
+  | (d, c) :: a', (d', c') :: b' => (d =? d') && list_eqb Z.eqb (digs c) c' && cheats_eqb a' b'
+  | _, _ => false
+  end.
+
+(** *** specifications of the decimal operations, on integers *)
+Definition decimal_eqb (a b : decimal) : bool :=
+  list_eqb Z.eqb (dc_d a) (dc_d b) && (dc_dp a =? dc_dp b) && Bool.eqb (dc_neg a) (dc_neg b)
+  && Bool.eqb (dc_trunc a) (dc_trunc b).
+
+Definition dnum (a : decimal) : Z := fold_left (fun x c => x * 10 + c) (dc_d a) 0.
+Definition dexp (a : decimal) : Z := dc_dp a - dc_nd a.
+Definition digits_wf (a : decimal) : bool :=
+  forallb (fun c => (0 <=? c) && (c <=? 9)) (dc_d a) && (dc_nd a <=? 800)
+  && match dc_d a with c :: _ => negb (c =? 0) | [] => false end.
+
+(** a' = a * 2^k up to what is lost beyond the 800th digit of a' (one unit at most when
+    [single]), trunc set exactly when something is lost *)
+Definition shift_spec_ok (single : bool) (a a' : decimal) (k : Z) : bool :=
+  let m := Z.min (dexp a) (dexp a') in
+  let exact_num := dnum a * 10 ^ (dexp a - m) * (if 0 <=? k then 2 ^ k else 1) in   (* times 2^|k| below *)
+  let got := dnum a' * 10 ^ (dexp a' - m) * (if 0 <=? k then 1 else 2 ^ (- k)) in
+  let ulp := (if 0 <=? dc_dp a' - 800 - m then 10 ^ (dc_dp a' - 800 - m) else 1) * (if 0 <=? k then 1 else 2 ^ (- k)) in
+  let lost := exact_num - got in
+  digits_wf a' && (0 <=? lost) && (if single then lost <? ulp else true)
+  && Bool.eqb (dc_trunc a') (dc_trunc a || (0 <? lost)) && Bool.eqb (dc_neg a') (dc_neg a)
+  && negb (last (dc_d a') 0 =? 0).
+
+(** round-half-even of dnum a * 10^e at the unit 10^u (u >= e), sticky = trunc *)
+Definition rne_at (a : decimal) (u : Z) : Z :=
+  let f := u - dexp a in
+  if f <=? 0 then dnum a * 10 ^ (- f)
+  else let q := dnum a / 10 ^ f in let r := dnum a mod 10 ^ f in
+       match 2 * r ?= 10 ^ f with
+       | Lt => q | Gt => q + 1
+       | Eq => if dc_trunc a then q + 1 else if Z.even q then q else q + 1
+       end.
+
+Definition same_value (n e : Z) (a' : decimal) : bool :=      (* n * 10^e = the number a' denotes *)
+  let m := Z.min e (dexp a') in n * 10 ^ (e - m) =? dnum a' * 10 ^ (dexp a' - m).
+
+Definition dec_of_decimal (a : decimal) : dec :=
+  mkDec (rev (map digit_byte (dc_d a))) (dc_nd a) (dc_dp a) (dc_neg a) (dc_trunc a).
+
+Definition bits_res_eqb (r : option (Z * bool)) (v : b64 * num_err) : bool :=
+  match r with
+  | Some (b, o) => b64_same (b64_of_bits b) (fst v) && num_err_eqb (if o then ErrRange else ErrNone) (snd v)
+  | None => false
+  end.
+
 Definition prop_ok (c : case) : bool :=
   match c with
   | CFloat t pf st rd =>
@@ -136,6 +251,24 @@ Definition prop_ok (c : case) : bool :=
                     zres_agree (ic_val ic, ic_err ic) (ic_sval ic, ic_serr ic)
                     && (if (ic_fn ic =? 0) && (ic_base ic =? 10) && ((ic_bits ic =? 0) || (ic_bits ic =? 64))
                         then int_obs_ok t (ic_val ic, ic_err ic) else true)) calls
+  | CTables ch pt cs => cheats_ok 0 ch
+  | CDecOp op a k (Some r) =>
+      if negb (digits_wf a) then true else
+      if (op =? 0) || (op =? 1) then shift_spec_ok true a r (if op =? 0 then k else - k)
+      else if op =? 2 then (if k =? 0 then decimal_eqb r a else shift_spec_ok false a r k)
+      else if (k <? 0) || (dc_nd a <=? k) then decimal_eqb r a
+      else if op =? 4 then same_value (dnum a / 10 ^ (dc_nd a - k)) (dc_dp a - k) r || Nat.eqb (length (dc_d r)) 0
+      else if op =? 5 then same_value (dnum a / 10 ^ (dc_nd a - k) + 1) (dc_dp a - k) r
+      else if negb (last (dc_d a) 0 =? 0) then same_value (rne_at a (dc_dp a - k)) (dc_dp a - k) r || Nat.eqb (length (dc_d r)) 0
+      else true
+  | CDecOp _ _ _ None => false
+  | CDecRI a n =>
+      if digits_wf a && negb (last (dc_d a) 0 =? 0) && (dc_dp a <=? 19) then n =? rne_at a 0 else true
+  | CDecAssign u r => (if u =? 0 then Nat.eqb (length (dc_d r)) 0 else same_value u 0 r && digits_wf r && negb (last (dc_d r) 0 =? 0))
+  | CDecBits a r =>
+      if digits_wf a && (if dc_trunc a then dc_nd a =? 800 else true)
+      then bits_res_eqb r (dec_float_bits (dec_of_decimal a)) else true
+  | CDecSet t ok r => true
   end.
 
 (** [reader_atof] with the full parser's answer supplied (so that it is not
@@ -153,6 +286,7 @@ Definition corr_ok (c : case) : bool :=
   | CFloat t pf st rd =>
       let m := parse_float t in                    (* evaluated once *)
       fres_eqb m pf
+      && fres_eqb (parse_float_code t) pf          (* slow path = transcribed decimal.go *)
       && reader_matches b64_same (reader_atof_with m t) rd
   | CInt t a st rd calls =>
       zres_eqb (ires_pair (atoi t)) a
@@ -161,6 +295,33 @@ Definition corr_ok (c : case) : bool :=
                     let m := if ic_fn ic =? 0 then parse_int t (ic_base ic) (ic_bits ic)
                              else parse_uint t (ic_base ic) (ic_bits ic) in
                     zres_eqb (ires_pair m) (ic_val ic, ic_err ic)) calls
+  | CTables ch pt cs =>
+      cheats_eqb ch leftcheats
+      && list_eqb Z.eqb pt powtab
+      && list_eqb Z.eqb cs [max_digits; flt_mantbits; flt_expbits; flt_bias]
+  | CDecOp op a k res =>
+      let m : option decimal :=
+        if op =? 0 then leftShift a k else if op =? 1 then rightShift a k else if op =? 2 then shift a k
+        else if op =? 3 then Some (round a k) else if op =? 4 then Some (roundDown a k) else Some (roundUp a k) in
+      (* the transcription is partial where the Go code reads stale bytes: only on ill-formed input *)
+      match m, res with
+      | Some x, Some y => decimal_eqb x y
+      | None, _ => negb (digits_wf a)
+      | Some _, None => false
+      end
+  | CDecRI a n => roundedInteger a =? n
+  | CDecAssign u r => decimal_eqb (assign (mkDecimal [] 0 false false) u) r
+  | CDecBits a r =>
+      match floatBits a, r with
+      | Some (b, o), Some (b', o') => (b =? b') && Bool.eqb o o'
+      | None, _ => negb (digits_wf a)
+      | Some _, None => false
+      end
+  | CDecSet t ok r =>
+      match dec_set t with
+      | Some d => ok && decimal_eqb (decimal_of_dec d) r
+      | None => negb ok
+      end
   end.
 
 Definition run_case (s : sx) : N :=
